@@ -39,11 +39,17 @@ struct Edge {
     class_key: Option<String>,
 }
 
-#[derive(Clone, Copy, PartialEq)]
+#[derive(Clone, PartialEq)]
 enum EdgeKind {
     Function,
     /// action f(x int, s string, b bool)
     Action,
+    /// function f(<own parameters>) run on each of these argument lists
+    FunctionArgs(Vec<Vec<Value>>),
+    /// action f() without parameters
+    Action0,
+    /// command Cmd { fields { x int } … } run with this.x = 0 and 1
+    Command,
 }
 
 fn sig() -> String {
@@ -474,6 +480,259 @@ fn e5_facts(out: &mut Vec<Edge>) {
     }
 }
 
+// ---------------------------------------------------------------------------------------------
+// E6: several arms binding the same variant under different names, over finite scrutinee types
+
+fn e6_binding_arms(out: &mut Vec<Edge>, tier: Tier) {
+    let unit = Value::Unit;
+    let b = Value::Bool;
+    let some = |v: Value| Value::Option(Some(Box::new(v)));
+    let ok = |v: Value| Value::Result(Ok(Box::new(v)));
+    let err = |v: Value| Value::Result(Err(Box::new(v)));
+    let en = |k: i64| Value::Enum(ident!("E"), k);
+    // (type text, patterns (text, binder), all argument values)
+    let types: Vec<(&str, Vec<(&str, Option<&str>)>, Vec<Value>)> = vec![
+        (
+            "option[bool]",
+            vec![("Some(x)", Some("x")), ("Some(y)", Some("y")), ("Some(z)", Some("z")), ("Some(true)", None), ("Some(false)", None), ("None", None)],
+            vec![Value::Option(None), some(b(true)), some(b(false))],
+        ),
+        ("option[unit]", vec![("Some(x)", Some("x")), ("Some(y)", Some("y")), ("Some(Unit)", None), ("None", None)], vec![Value::Option(None), some(unit.clone())]),
+        (
+            "option[enum E]",
+            vec![("Some(x)", Some("x")), ("Some(y)", Some("y")), ("Some(z)", Some("z")), ("Some(w)", Some("w")), ("Some(E::A)", None), ("None", None)],
+            vec![Value::Option(None), some(en(0)), some(en(2))],
+        ),
+        (
+            "result[unit, unit]",
+            vec![("Ok(x)", Some("x")), ("Ok(y)", Some("y")), ("Err(x)", Some("x")), ("Err(e)", Some("e")), ("Ok(Unit)", None), ("Err(Unit)", None)],
+            vec![ok(unit.clone()), err(unit.clone())],
+        ),
+        (
+            "result[bool, unit]",
+            vec![("Ok(x)", Some("x")), ("Ok(y)", Some("y")), ("Ok(z)", Some("z")), ("Err(e)", Some("e")), ("Ok(true)", None), ("Err(Unit)", None)],
+            vec![ok(b(true)), ok(b(false)), err(unit.clone())],
+        ),
+        (
+            "result[bool, bool]",
+            vec![("Ok(x)", Some("x")), ("Ok(y)", Some("y")), ("Err(e)", Some("e")), ("Err(d)", Some("d")), ("Ok(true)", None), ("Err(false)", None)],
+            vec![ok(b(true)), ok(b(false)), err(b(true)), err(b(false))],
+        ),
+    ];
+    let max_arms = tier.pick(3, 4);
+    for (ty, pats, vals) in &types {
+        let args: Vec<Vec<Value>> = vals.iter().map(|v| vec![v.clone()]).collect();
+        // all sequences of 1..=max_arms single-pattern arms
+        let mut seqs: Vec<Vec<usize>> = vec![vec![]];
+        let mut all: Vec<Vec<usize>> = Vec::new();
+        for _ in 0..max_arms {
+            let mut next = Vec::new();
+            for sq in &seqs {
+                for i in 0..pats.len() {
+                    let mut n = sq.clone();
+                    n.push(i);
+                    next.push(n);
+                }
+            }
+            all.extend(next.iter().cloned());
+            seqs = next;
+        }
+        for sq in &all {
+            // only sequences with at least two binders (the single-binder space is in E1)
+            if sq.iter().filter(|i| pats[**i].1.is_some()).count() < 2 {
+                continue;
+            }
+            for default in [false, true] {
+                let mut arms_e = Vec::new();
+                let mut arms_s = Vec::new();
+                for (k, i) in sq.iter().enumerate() {
+                    let (p, bind) = pats[*i];
+                    let body = match bind {
+                        Some(v) => format!("(if {v} == {v} {{ :{k} }} else {{ :9 }})"),
+                        None => format!("{k}"),
+                    };
+                    arms_e.push(format!("{p} => {body}"));
+                    arms_s.push(format!("{p} => {{ return {body} }}"));
+                }
+                if default {
+                    arms_e.push("_ => 7".into());
+                    arms_s.push("_ => { return 7 }".into());
+                }
+                // same variant bound twice under different names?
+                let variant = |p: &str| p.split('(').next().unwrap_or("").to_string();
+                let mut dup = false;
+                for (a, i) in sq.iter().enumerate() {
+                    for j in &sq[..a] {
+                        if pats[*i].1.is_some() && pats[*j].1.is_some() && variant(pats[*i].0) == variant(pats[*j].0) {
+                            dup = true;
+                        }
+                    }
+                }
+                let ck = if dup && !default {
+                    Some("match arms that bind the same variant under different names are counted as distinct values by the exhaustiveness test".to_string())
+                } else {
+                    None
+                };
+                for (text, family) in [
+                    (format!("function f(p {ty}) int {{ return match p {{ {} }} }}", arms_e.join(" ")), "binding_arms_expr"),
+                    (format!("function f(p {ty}) int {{ match p {{ {} }} return 8 }}", arms_s.join(" ")), "binding_arms_stmt"),
+                ] {
+                    out.push(Edge { extra_decls: "", text, family, kind: EdgeKind::FunctionArgs(args.clone()), class_key: ck.clone() });
+                }
+            }
+        }
+    }
+}
+
+// ---------------------------------------------------------------------------------------------
+// E7: global let values of every constant-expression kind, used in every way
+
+fn e7_globals(out: &mut Vec<Edge>) {
+    // (global value text, is a struct literal with an ill-typed field)
+    let values: Vec<(&str, bool)> = vec![
+        ("1", false), ("true", false), ("\"a\"", false), ("E::B", false), ("E::Z", false), ("None", false), ("Some(1)", false), ("Some(None)", false),
+        ("Ok(1)", false), ("Err(true)", false), ("Unit", false), ("todo()", false), ("x", false), ("g", false), ("g2", false),
+        ("add(1, 2)", false), ("if true { :1 } else { :2 }", false), ("!true", false), ("1 == 1", false),
+        ("S { a: 1, b: true }", false), ("S { b: true, a: 1 }", false),
+        ("S { a: \"x\", b: true }", true), ("S { a: true, b: 1 }", true), ("S { a: None, b: true }", true), ("S { a: 1, b: Some(true) }", true),
+        ("S { a: E::A, b: true }", true), ("S { a: S { a: 1, b: true }, b: true }", true), ("S { a: 1, b: true, c: 3 }", false),
+        ("S { a: 1, a: 2, b: true }", false), ("S { a: g, b: true }", false), ("S { a: g2.a, b: g2.b }", false), ("S { a: g2.b, b: g2.a }", true),
+        ("S { a: 1, ...g2 }", false), ("T { c: \"a\", ...g2 }", false), ("T { a: 1, b: true, c: 5 }", true), ("T { a: 1, b: true, c: Some(\"a\") }", true),
+        ("Some(S { a: \"x\", b: true })", true), ("Ok(S { a: true, b: true })", true), ("Nope { a: 1 }", false), ("g2.a", false), ("g2.zz", false),
+        ("Some(g2)", false), ("S2 { b: 1, a: true }", true),
+    ];
+    let usages = [
+        "return saturating_add(gv.a, 1)", "if gv.b { return 1 } return 0", "if gv.c == \"a\" { return 1 } return 0", "return saturating_add(gv, 1)",
+        "if gv { return 1 } return 0", "if gv == gv { return 1 } return 0", "if gv == st { return 1 } return 0", "let w = gv substruct S return w.a",
+        "let w = gv as S2 return w.a", "return (gv) or (1)", "if gv is Some { return 1 } return 0",
+        "match gv { Some(q) => { return saturating_add(q.a, 1) } None => { return 0 } }",
+        "match gv { Ok(q) => { return saturating_add(q.a, 1) } Err(e) => { return 0 } }",
+        "match gv { Some(q) => { return saturating_add(q, 1) } None => { return 0 } }", "return h_int(gv)", "let w = h_s(gv.a, gv.b) return w.a",
+        "let w = T { c: \"a\", ...gv } return w.a", "match gv { E::A => { return 1 } _ => { return 0 } }", "let gv = 1 return gv", "return 0",
+    ];
+    for (val, ill) in values {
+        for u in usages {
+            // `g2` is a well-formed global struct the candidate may refer to; `gv` is the candidate
+            let decls: &'static str = Box::leak(format!("let g2 = S {{ a: 2, b: false }}\nlet gv = {val}\n").into_boxed_str());
+            out.push(Edge {
+                extra_decls: decls,
+                text: format!("function f({}) int {{ {u} }}", sig()),
+                family: "global_lets",
+                kind: EdgeKind::Function,
+                class_key: if ill { Some("global let struct literal whose field values are not type-checked".to_string()) } else { None },
+            });
+        }
+    }
+}
+
+// ---------------------------------------------------------------------------------------------
+// E8: calls of every kind with every arity 0..=n+1 and every argument kind
+
+const CALL_DECLS: &str = "\
+fact F[k int]=>{v int}
+effect Eff { a int }
+finish function ff(p int, q bool) { emit Eff { a: p } }
+command Other { fields { a int } seal { return todo() } open { return todo() } policy { finish { } } }
+action other(p int, q bool) { publish Other { a: p } }
+";
+
+fn e8_calls(out: &mut Vec<Edge>) {
+    let atoms = ["1", "true", "\"s\"", "None", "todo()"];
+    let mut lists: Vec<Vec<&str>> = vec![vec![]];
+    let mut cur: Vec<Vec<&str>> = vec![vec![]];
+    for _ in 0..3 {
+        let mut next = Vec::new();
+        for l in &cur {
+            for a in atoms {
+                let mut n = l.clone();
+                n.push(a);
+                next.push(n);
+            }
+        }
+        lists.extend(next.iter().cloned());
+        cur = next;
+    }
+    for l in &lists {
+        let args = l.join(", ");
+        let short = l.len() < 2;
+        let recall_key = if short { Some("recall call with fewer arguments than the recall block declares".to_string()) } else { None };
+        let cmd = |policy: String| {
+            format!("command Cmd {{ fields {{ x int }} seal {{ return todo() }} open {{ return todo() }} policy {{ {policy} }} recall r(p int, q bool) {{ let w = saturating_add(p, 1) finish {{ emit Eff {{ a: w }} }} }} recall r0() {{ finish {{ }} }} }}")
+        };
+        // recall, statement and expression form
+        out.push(Edge { extra_decls: CALL_DECLS, text: cmd(format!("recall r({args})")), family: "call_arities", kind: EdgeKind::Command, class_key: recall_key.clone() });
+        out.push(Edge { extra_decls: CALL_DECLS, text: cmd(format!("check this.x == 0 else recall r({args}) finish {{ }}")), family: "call_arities", kind: EdgeKind::Command, class_key: recall_key.clone() });
+        out.push(Edge { extra_decls: CALL_DECLS, text: cmd(format!("check this.x == 0 else recall r0({args}) finish {{ }}")), family: "call_arities", kind: EdgeKind::Command, class_key: None });
+        // finish function
+        out.push(Edge { extra_decls: CALL_DECLS, text: cmd(format!("finish {{ ff({args}) }}")), family: "call_arities", kind: EdgeKind::Command, class_key: None });
+        // action call
+        out.push(Edge { extra_decls: CALL_DECLS, text: format!("action f(x int, s string, b bool) {{ action other({args}) }}"), family: "call_arities", kind: EdgeKind::Action, class_key: None });
+        // pure function, builtin
+        out.push(fun("int", &format!("let v = h_s({args}) return 0"), "call_arities"));
+        out.push(fun("int", &format!("let v = add({args}) return 0"), "call_arities"));
+        out.push(fun("int", &format!("let v = h_int({args}) return 0"), "call_arities"));
+        // struct-typed and option-typed parameters
+        out.push(Edge {
+            extra_decls: "function k(p struct S, q option[int], r2 result[int, bool]) int { return saturating_add(p.a, (q) or (0)) }\n",
+            text: format!("function f({}) int {{ return k({args}) }}", sig()),
+            family: "call_arities",
+            kind: EdgeKind::Function,
+            class_key: None,
+        });
+    }
+}
+
+// ---------------------------------------------------------------------------------------------
+// E9: early exits from inside map loops, at every nesting, in called actions
+
+const MAP_DECLS: &str = "\
+fact A[i int]=>{x int}
+fact B[j int]=>{y int}
+effect Eff { a int }
+command Cmd { fields { a int } seal { return todo() } open { return todo() } policy { finish { } } }
+";
+
+fn e9_map_exits(out: &mut Vec<Edge>) {
+    // bodies of the called (fallible) action `inner`
+    let inners: Vec<(&str, bool)> = vec![
+        ("return Ok(Unit)", false),
+        ("map B[j: ?] as b { return Ok(Unit) } return Ok(Unit)", true),
+        ("map B[j: ?] as b { check b.y == 2 else return Err(1) } return Ok(Unit)", true),
+        ("map B[j: ?] as b { if b.y == 1 { return Ok(Unit) } } return Ok(Unit)", true),
+        ("map B[j: ?] as b { match b.y { 2 => { return Err(2) } _ => { } } } return Ok(Unit)", true),
+        ("map B[j: ?] as b { map A[i: ?] as a2 { return Ok(Unit) } } return Ok(Unit)", true),
+        ("map B[j: ?] as b { map A[i: ?] as a2 { if a2.x == 2 { return Ok(Unit) } } } return Ok(Unit)", true),
+        ("map B[j: ?] as b { publish Cmd { a: b.y } return Ok(Unit) }  return Ok(Unit)", true),
+        ("map B[j: ?] as b { check b.y == 9 else todo() } return Ok(Unit)", false),
+        ("map B[j: ?] as b { let t = b.y } return Ok(Unit)", false),
+        ("map B[j: 1] as b { return Ok(Unit) } return Ok(Unit)", true),
+        ("map A[i: ?] as a2 { return Ok(Unit) } return Ok(Unit)", true),
+    ];
+    let outers = [
+        "map A[i: ?] as a { let before = a.x action inner() }",
+        "map A[i: ?] as a { action inner() let after = a.x publish Cmd { a: after } }",
+        "action inner() map A[i: ?] as a { publish Cmd { a: a.x } }",
+        "map A[i: ?] as a { map B[j: ?] as b0 { action inner() publish Cmd { a: saturating_add(a.x, b0.y) } } }",
+        "map A[i: ?] as a { action inner() } map B[j: ?] as b1 { publish Cmd { a: b1.y } }",
+        "map A[i: ?] as a { action mid() let after = a.x }",
+        "action inner() action inner() map A[i: ?] as a { let after = a.x }",
+    ];
+    for (inner, leaves) in &inners {
+        for outer in outers {
+            let decls: &'static str = Box::leak(
+                format!("{MAP_DECLS}action inner() result[unit, int] {{ {inner} }}\naction mid() {{ map B[j: ?] as bm {{ action inner() let t = bm.y }} }}\n").into_boxed_str(),
+            );
+            out.push(Edge {
+                extra_decls: decls,
+                text: format!("action f() {{ {outer} }}"),
+                family: "map_early_exits",
+                kind: EdgeKind::Action0,
+                class_key: if *leaves { Some("return from inside a map loop leaves its query iterator on the stack of open queries".to_string()) } else { None },
+            });
+        }
+    }
+}
+
 fn stores() -> Vec<RecIo> {
     let fkey = |k: i64| vec![FactKey::new(ident!("k"), HashableValue::Int(k))];
     let fval = |v: i64| vec![FactValue::new(ident!("v"), Value::Int(v))];
@@ -498,12 +757,20 @@ fn stores() -> Vec<RecIo> {
     one.facts.insert((ident!("F"), fkey(0)), fval(0));
     one.facts.insert((ident!("G"), gkey("", 0)), gval(true, ""));
     one.facts.insert((ident!("H"), hkey(0, 0)), hval(None));
+    let akey = |n: &str, k: i64| vec![FactKey::new(vmrun::ident_of(n), HashableValue::Int(k))];
+    let aval = |n: &str, v: i64| vec![FactValue::new(vmrun::ident_of(n), Value::Int(v))];
+    one.facts.insert((ident!("A"), akey("i", 1)), aval("x", 1));
+    one.facts.insert((ident!("B"), akey("j", 1)), aval("y", 1));
     v.push(one);
     let mut many = RecIo::new();
     for k in [-1, 0, 1, i64::MAX, i64::MIN] {
         many.facts.insert((ident!("F"), fkey(k)), fval(k));
         many.facts.insert((ident!("G"), gkey("a", k)), gval(k > 0, "a"));
         many.facts.insert((ident!("G"), gkey("", k)), gval(k > 0, ""));
+    }
+    for k in [1, 2, 3] {
+        many.facts.insert((ident!("A"), akey("i", k)), aval("x", k));
+        many.facts.insert((ident!("B"), akey("j", k)), aval("y", k));
     }
     for e in 0..3 {
         for i in 0..2 {
@@ -547,8 +814,11 @@ fn run_edge(rep: &mut Report, e: &Edge, tuples: &[Vec<Value>], stores: &[RecIo])
     let uses_facts = !e.extra_decls.is_empty() && e.extra_decls.starts_with("fact");
     let store_list: Vec<&RecIo> = if uses_facts { stores.iter().collect() } else { stores.iter().take(1).collect() };
     for st in store_list {
-        let tuple_list: Vec<Vec<Value>> = match e.kind {
+        let tuple_list: Vec<Vec<Value>> = match &e.kind {
             EdgeKind::Function => tuples.to_vec(),
+            EdgeKind::FunctionArgs(a) => a.clone(),
+            EdgeKind::Action0 => vec![vec![]],
+            EdgeKind::Command => vec![vec![Value::Int(0)], vec![Value::Int(1)]],
             EdgeKind::Action => vec![
                 vec![Value::Int(0), Value::String(vmrun::text_of("")), Value::Bool(true)],
                 vec![Value::Int(1), Value::String(vmrun::text_of("a")), Value::Bool(false)],
@@ -558,9 +828,13 @@ fn run_edge(rep: &mut Report, e: &Edge, tuples: &[Vec<Value>], stores: &[RecIo])
         for (ti, t) in tuple_list.iter().enumerate() {
             let mut io = clone_store(st);
             let mut steps = 0u64;
-            let out = match e.kind {
-                EdgeKind::Function => vmrun::run_function(&machine, &mut io, "f", t, &mut steps),
-                EdgeKind::Action => {
+            let out = match &e.kind {
+                EdgeKind::Function | EdgeKind::FunctionArgs(_) => vmrun::run_function(&machine, &mut io, "f", t, &mut steps),
+                EdgeKind::Command => {
+                    let this = aranya_policy_vm::Struct { name: ident!("Cmd"), fields: [(ident!("x"), t[0].clone())].into_iter().collect() };
+                    vmrun::run_command(&machine, &mut io, this, &mut steps)
+                }
+                EdgeKind::Action | EdgeKind::Action0 => {
                     let mut published = Vec::new();
                     vmrun::run_action(&machine, &mut io, "f", t, &mut published, &mut steps)
                 }
@@ -604,9 +878,13 @@ fn edges(tier: Tier) -> Vec<Edge> {
     e3_cross_types(&mut v);
     e4_scoping(&mut v);
     e5_facts(&mut v);
+    e6_binding_arms(&mut v, tier);
+    e7_globals(&mut v);
+    e8_calls(&mut v);
+    e9_map_exits(&mut v);
     // identical candidates (e.g. "first binder" = "last binder") are run once
     let mut seen = std::collections::HashSet::new();
-    v.retain(|e| seen.insert((e.extra_decls.len(), e.text.clone())));
+    v.retain(|e| seen.insert((e.extra_decls.to_string(), e.text.clone())));
     v
 }
 
